@@ -183,7 +183,40 @@ func genC18(d *Draw) Case {
 		defs.Procs = append(defs.Procs, g)
 		return g
 	}
-	if !withMsg {
+	if d.N(4) == 3 {
+		// burst: one executable process forks into k throw events, each instantiating its own waiting process
+		k := 2 + d.N(6)
+		g := mkProc("P1", true)
+		g.addNode(&Node{ID: "P1_Start", Kind: "start"})
+		g.addNode(&Node{ID: "P1_T1", Kind: "task"})
+		g.connect(defs, "P1_Start", "P1_T1", nil, -1)
+		g.addNode(&Node{ID: "P1_F", Kind: "and"})
+		g.connect(defs, "P1_T1", "P1_F", nil, -1)
+		g.addNode(&Node{ID: "P1_J", Kind: "and"})
+		for i := 1; i <= k; i++ {
+			th := fmt.Sprintf("TH%d", i)
+			g.addNode(&Node{ID: th, Kind: "throw", Events: []EventDef{{Kind: "message", Ref: fmt.Sprintf("m%d", i)}}})
+			g.connect(defs, "P1_F", th, nil, -1)
+			g.connect(defs, th, "P1_J", nil, -1)
+			defs.Messages = append(defs.Messages, fmt.Sprintf("m%d", i))
+		}
+		g.addNode(&Node{ID: "P1_T2", Kind: "task"})
+		g.connect(defs, "P1_J", "P1_T2", nil, -1)
+		g.addNode(&Node{ID: "P1_End", Kind: "end"})
+		g.connect(defs, "P1_T2", "P1_End", nil, -1)
+		for i := 1; i <= k; i++ {
+			w := mkProc(fmt.Sprintf("W%d", i), false)
+			ws, wt, we := fmt.Sprintf("W%d_Start", i), fmt.Sprintf("W%d_T", i), fmt.Sprintf("W%d_End", i)
+			w.addNode(&Node{ID: ws, Kind: "start"})
+			w.addNode(&Node{ID: wt, Kind: "task"})
+			w.connect(defs, ws, wt, nil, -1)
+			w.addNode(&Node{ID: we, Kind: "end"})
+			w.connect(defs, wt, we, nil, -1)
+			defs.MsgFlows = append(defs.MsgFlows, [2]string{fmt.Sprintf("TH%d", i), ws})
+		}
+		desc = append(desc, fmt.Sprintf("P1 forks into %d throws, each instantiating its own waiting process", k))
+		c.Tags = append(c.Tags, "message-flow", "throw-burst")
+	} else if !withMsg {
 		for p := 1; p <= nexec; p++ {
 			g := mkProc(fmt.Sprintf("P%d", p), true)
 			g.addNode(&Node{ID: fmt.Sprintf("P%d_Start", p), Kind: "start"})
@@ -417,6 +450,7 @@ func checkC18(cc Case, r *simrt.Result) *Outcome {
 	}
 	probe(o, "process-finishes-at-once", trivial)
 	probe(o, "message-flow", len(c.Defs.MsgFlows) > 0)
+	probe(o, "throw-burst", hasTag(c.Tags, "throw-burst"))
 	probe(o, "repeated-or-concurrent-waits", c.Waits > 1)
 	o.Sample = map[string]any{"set": c.Desc, "buf": c.Buf}
 	return o
